@@ -15,13 +15,12 @@ namespace detail
 		template<typename genType>
 		GLM_FUNC_QUALIFIER static genType call(genType Source, genType Multiple)
 		{
-			if (Source >= genType(0))
-				return Source - std::fmod(Source, Multiple);
-			else
-			{
-				genType Tmp = Source + genType(1);
-				return Tmp - std::fmod(Tmp, Multiple) - Multiple;
-			}
+			// Remainder with the sign of Source: Source - Rem is the multiple towards zero
+			genType const Rem = std::fmod(Source, Multiple);
+			genType const Dist = Rem < genType(0) ? -Rem : Rem;
+			if(Dist <= Multiple - Dist)
+				return Source - Rem;
+			return Rem < genType(0) ? Source - Rem - Multiple : Source - Rem + Multiple;
 		}
 	};
 
@@ -31,13 +30,8 @@ namespace detail
 		template<typename genType>
 		GLM_FUNC_QUALIFIER static genType call(genType Source, genType Multiple)
 		{
-			if (Source >= genType(0))
-				return Source - Source % Multiple;
-			else
-			{
-				genType Tmp = Source + genType(1);
-				return Tmp - Tmp % Multiple - Multiple;
-			}
+			genType const Rem = Source % Multiple;
+			return Rem <= Multiple - Rem ? Source - Rem : Source + (Multiple - Rem);
 		}
 	};
 
@@ -47,13 +41,12 @@ namespace detail
 		template<typename genType>
 		GLM_FUNC_QUALIFIER static genType call(genType Source, genType Multiple)
 		{
-			if (Source >= genType(0))
-				return Source - Source % Multiple;
-			else
-			{
-				genType Tmp = Source + genType(1);
-				return Tmp - Tmp % Multiple - Multiple;
-			}
+			// Remainder with the sign of Source: Source - Rem is the multiple towards zero
+			genType const Rem = Source % Multiple;
+			genType const Dist = Rem < genType(0) ? -Rem : Rem;
+			if(Dist <= Multiple - Dist)
+				return Source - Rem;
+			return Rem < genType(0) ? Source - Rem - Multiple : Source - Rem + Multiple;
 		}
 	};
 }//namespace detail
